@@ -12,3 +12,5 @@ import BalmProofs.Props.C15
 #print axioms Balm.Impl.judgeTrueComplete_sound
 #print axioms Balm.Impl.judgeFalseHasStub_sound
 #print axioms Balm.Impl.judgeWeak_sound
+#print axioms Balm.Impl.judgeStrict_iff
+#print axioms Balm.Impl.judgeWeak_iff
